@@ -101,6 +101,10 @@ def wrap_vector(kind, values, index_plan="default", name=None):
         return to_ndarray(values)
     if kind == "ndarray2d":
         return to_ndarray(values).reshape(n, 1)
+    if kind == "ndarray_object":
+        return _obj_array(list(values))
+    if kind == "series_object":
+        return pd.Series(_obj_array(list(values)), index=make_index(index_plan, n), name=name, dtype=object)
     if kind == "series":
         return pd.Series(list(values), index=make_index(index_plan, n), name=name)
     if kind == "dataframe":
